@@ -162,10 +162,22 @@ DOCS = {
 }
 
 
+_P31 = None
+
+
+def _p31():
+    global _P31
+    if _P31 is None:
+        from elementpath.xpath31 import XPath31Parser
+        _P31 = XPath31Parser()
+    return _P31
+
+
 def typed_vars(k: int) -> dict:
     """One value per atomic type and context (k = 0, 1, 2): arguments of the signature family."""
     from decimal import Decimal
     from elementpath import datatypes as dt
+    from elementpath.xpath_tokens import XPathMap, XPathArray
     return {
         # s3: also three valid regex flags; case chosen so that a literal pattern 'b' matches or not depending on the flags
         's': ('ABC ABC', 'abcabc', 'a-B-c')[k], 's2': ('b', 'B', 'c')[k], 's3': ('x', 'i', 'm')[k],
@@ -179,6 +191,9 @@ def typed_vars(k: int) -> dict:
         'q': dt.QName(('urn:p', '', 'urn:p')[k], ('p:a', 'b', 'p:c')[k]), 'u': dt.AnyURI(('http://x/a b', 'urn:x', 'a/../b')[k]),
         # sequence-valued variables: the caller's LIST objects (an operator that extends a list in place shows in the snapshot)
         'seq': [[1, 2], [5], [7, 8, 9]][k], 'eseq': [],
+        # the caller's own map and array objects with sequence-valued members (shared lists inside)
+        'cm': XPathMap(_p31(), {'k': [[1, 2], [5, 6], [7]][k], 'e': [], 's': ('u', 'v', 'w')[k]}),
+        'ca': XPathArray(_p31(), [[[10, 20], [30], [40, 50, 60]][k], 30, []]),
     }
 
 
@@ -254,6 +269,10 @@ TEMPLATES = [
     ('3.0', 'string-join(($seq, $eseq, 4) ! string(.), "-")'), ('3.1', '[($seq, 3)]?1'), ('3.1', 'map{"k": ($seq, 3)}?k'),
     ('3.1', 'array:size([($eseq, $seq), $seq])'), ('3.0', 'for-each(($seq, 0), function($n) { $n + 1 })'),
     ('2.0', 'for $i in ($seq, $seq) return $i * 2'), ('2.0', 'sum(($seq, $eseq))'), ('2.0', 'reverse(($seq, 0))'),
+    ('3.1', 'count(($cm("k"), 3))'), ('3.1', 'let $s := ($cm?k, 3), $t := (array:get($ca, 1), 40), $u := (map:get($cm, "e"), 0) return (count($s), count($t), count($u))'),
+    ('3.1', '($ca(1), $ca?3, 9)'), ('3.1', 'let $f := function() {} return count(($f(), 1))'), ('3.1', 'array:size(array:append($ca, ($cm?k, 1)))'),
+    ('3.1', 'map:size(map:put($cm, "n", ($cm?k, $cm?e)))'), ('3.1', '[($cm?k, $ca?1)]?1'), ('3.1', 'string-join((($cm?s, "z")), "")'),
+    ('3.1', 'array:flatten(($ca, $cm?k))'), ('3.1', 'map:for-each($cm, function($k, $v) { count(($v, 0)) })'),
 ]
 
 
@@ -578,11 +597,24 @@ def proj_result(res):
     return out
 
 
+def deep_str(v) -> str:
+    """string form of a caller value including the members of maps / arrays / lists"""
+    if hasattr(v, 'items') and callable(v.items) and type(v).__name__ in ('XPathMap', 'XPathArray'):
+        try:
+            items = list(v.items())
+        except Exception as e:  # noqa
+            return f'{type(v).__name__}!{type(e).__name__}'
+        return type(v).__name__ + '[' + ', '.join(deep_str(x) for x in items) + ']'
+    if isinstance(v, (list, tuple)):
+        return '(' + ', '.join(deep_str(x) for x in v) + ')'
+    return str(v)
+
+
 def snapshot(ctx):
     root = ctx['root']
     el = root.getroot() if hasattr(root, 'getroot') else root
     return (ET.tostring(el, encoding='unicode'),
-            tuple(sorted((k, type(v).__name__, str(v), str(getattr(v, 'tzinfo', None))) for k, v in ctx['variables'].items())),
+            tuple(sorted((k, type(v).__name__, deep_str(v), str(getattr(v, 'tzinfo', None))) for k, v in ctx['variables'].items())),
             tuple(sorted(ctx['namespaces'].items())))
 
 
